@@ -11,7 +11,8 @@ from jsim import util
 from jsim.core import Stats, Violation, shrink
 
 ALPHA = "abcdefghijklmnopqrstuvwxyzABCDEFGHIJKLMNOPQRSTUVWXYZ0123456789_:.-"
-ENTRY = {"A": "jsim.fakes:FakeEnvA", "B": "jsim.fakes:FakeEnvB", "C": "jsim.fakes:FakeEnvC"}
+ENTRY = {"A": "jsim.fakes:FakeEnvA", "B": "jsim.fakes:FakeEnvB", "C": "jsim.fakes:FakeEnvC",
+         "A2": "jsim.fakes2:FakeEnvA", "B2": "jsim.fakes2:FakeEnvB"}  # same class names in a second package
 
 
 def gen_name(rng: np.random.Generator) -> str:
@@ -122,8 +123,8 @@ class RegRun:
                 ep, kw = self.model[id_]
                 want_kw = dict(kw)
                 want_kw.update(overrides)
-                if type(obj).__name__ != ep.split(":")[1] or len(fakes.CALLS) != n0 + 1:
-                    self.fail("make", "wrong_class_constructed", f"make({id_!r}) built {type(obj).__name__}, registered {ep}")
+                if type(obj).__module__ + ":" + type(obj).__name__ != ep or len(fakes.CALLS) != n0 + 1:
+                    self.fail("make", "wrong_class_constructed", f"make({id_!r}) built {type(obj).__module__}:{type(obj).__name__}, registered {ep}")
                 if obj.args != () or _plain(obj.kwargs) != _plain(want_kw):
                     self.fail("make", "constructor_arguments_wrong", f"make({id_!r}, **{overrides}) called the constructor with {obj.kwargs}; registered "
                               f"{kw} overridden by the caller gives {want_kw}")
@@ -174,7 +175,7 @@ def generate(rng: np.random.Generator) -> List[List[Any]]:
         kw = {k: int(rng.integers(0, 100)) for k in ["alpha", "beta", "gamma"][: int(rng.integers(0, 4))]}
         if rng.random() < 0.3:
             kw["nested"] = {"x": [1, 2, int(rng.integers(0, 9))]}
-        which = str(rng.choice(["A", "B", "C"]))
+        which = str(rng.choice(["A", "B", "C", "A2", "B2"]))
         if r < 0.3:
             ops.append(["register", id_, which, kw, "fresh"])
             known.append(id_)
